@@ -8,6 +8,10 @@ SEND = r'^tokio::sync::broadcast::Sender::send$'
 PUSH = r'^alloc::vec::Vec::push$'
 
 
+def inl_abs(absorbed):
+    return absorbed
+
+
 def run(ctx):
     P = ctx.prog
     ctx.not_decided = 'broadcast-channel overflow for a subscriber stalled for more than the channel capacity (a slow-consumer fault, outside the stated quantifier).'
@@ -109,6 +113,14 @@ def run(ctx):
         fam = [g for g in P.family(base)]
         for hb in sorted(getattr(f, 'inlined_bodies', ())):
             fam += [g for g in P.family(hb.split('::{closure')[0]) if g not in fam]
+        # named predicates of the module the filter closures delegate to (`keep_live_frame(event, id, last)`)
+        for _depth in (1, 2):
+            for g in list(fam):
+                for s_ in g.sites():
+                    c_ = s_.callee or ''
+                    if c_.startswith('ripd::server::') and c_ in P.fns and '{closure' not in c_ and c_ not in inl_abs(absorbed) and P.fns[c_] not in fam \
+                            and any('rip_kernel::Event' in (P.fns[c_].lty(i_) or '') for i_ in range(1, P.fns[c_].argc + 1)):
+                        fam += [x for x in P.family(c_) if x not in fam]
         seqcmp = []
         idcmp = []
         for g in fam:
